@@ -313,8 +313,11 @@ def correspond(ctx):
     rbox = {}
 
     def do_replay():
+        import time
+        t0_ = time.time()
         try:
             rbox["res"], rbox["retried"] = c15_replay.replay_all("c15_replay", rjobs, rmeta, C2)
+            rbox["wall"] = round(time.time() - t0_, 1)
         except Exception as ex:   # noqa
             rbox["err"] = str(ex)
     rth = threading.Thread(target=do_replay)
@@ -360,8 +363,13 @@ def correspond(ctx):
         mism += mm_
         rstats["rounds_replayed"] = nrep
         rstats["rounds_needing_another_order_proposal"] = rbox.get("retried", 0)
+        rstats["wall_s_concurrent_with_the_thread_conformance"] = rbox.get("wall", 0)
     for k, v in rstats.items():
         total["replay_" + k] = v
+    # (only the first 20 mismatches are kept below: how many of which layer)
+    total["mismatches_round_not_readable_as_lane_actions"] = sum(1 for m in mism if m["what"].startswith("a recorded round cannot"))
+    total["mismatches_global_replay"] = sum(1 for m in mism if m["what"].startswith("global replay"))
+    total["mismatches_thread_automaton"] = sum(1 for m in mism if m["what"].startswith("a recorded thread trace"))
     distinct = len(set(shape(t) for (_, t, _, _, _) in alltr))
     mergers = [x for x in alltr if any(e.kind == 100 for e in x[1])][:2]
     drainers = [x for x in alltr if any(e.kind == 3 for e in x[1])][:2]
